@@ -233,4 +233,4 @@ NOT_APPLICABLE = {
 
 # properties whose checks are complete enough to be registered in MANIFEST.json (maintained by hand:
 # a property is added only after ./check <ID> exits 0 on the unchanged tree inside its time budget)
-CLAIMED = ['C12', 'C04', 'C19', 'C20', 'C08']
+CLAIMED = ['C12', 'C04', 'C19', 'C20', 'C08', 'C03', 'C13', 'C09']
